@@ -713,6 +713,37 @@ func (c *Check) certainCrash(rule string) {
 					}
 				case *ssa.Store:
 					ptr, what = x.Addr, "store through"
+				case ssa.CallInstruction:
+					if com := x.Common(); com.IsInvoke() {
+						ptr, what = com.Value, "method call on"
+					}
+				case *ssa.Return:
+					// `return …, err` on the outcome `err == nil` of a test of that very error: the bail-out was put on the
+					// wrong branch — the caller is told success with whatever the other results are at that point
+					if n := len(x.Results); n > 0 && types.Identical(x.Results[n-1].Type(), errorType) {
+						ev := x.Results[n-1]
+						if sv := spilledValue(ev, x); sv != nil {
+							ev = sv // results spilled to named variables because of a defer
+						}
+						if _, isConst := ev.(*ssa.Const); !isConst {
+							if _, isPhi := ev.(*ssa.Phi); !isPhi && (knownNilAt(ev, b) || (stableValue(ev, 0) && p.R(f).domFacts(b)[EQ(p.R(f).E(ev), "nil")])) {
+								// only a bail-out: the block does nothing but return, right after the test
+								onlySpills := true
+								for _, bi := range b.Instrs[:len(b.Instrs)-1] {
+									switch bi.(type) {
+									case *ssa.Store, *ssa.UnOp, *ssa.DebugRef, *ssa.RunDefers:
+									default:
+										onlySpills = false
+									}
+								}
+								if onlySpills && len(b.Preds) == 1 {
+									bad++
+									c.Violated(rule, "error-returned-where-nil @ "+FuncKey(f), p.InstrPos(in), "returns "+p.R(f).E(ev)+" on the branch where a test just found it nil: the failure branch and the success branch are swapped")
+								}
+							}
+						}
+					}
+					continue
 				case *ssa.Panic:
 					{
 						arg := x.X
